@@ -211,7 +211,7 @@ def _valgrind(src):
         except subprocess.TimeoutExpired:
             return None, "valgrind timeout"
     bad = p.returncode == 9 and ("Invalid read" in p.stderr or "Invalid write" in p.stderr)
-    return bad, p.stderr[:1500]
+    return (True if bad else None), p.stderr[:1500]
 
 
 def _copy_family(chan=False):
